@@ -342,9 +342,13 @@ extern "C" void shim_containers(void *ctx, const uint32_t *ops, size_t n_ops) {
                 break;
             }
             case 14: {
+                // a mutable Slice must refer to storage this vector owns alone: write through it
                 Slice<SolvableId> s = V[a % NV];
                 uint32_t sum = 0;
-                for (SolvableId *it = s.begin(); it != s.end(); ++it) sum += it->id;
+                for (SolvableId *it = s.begin(); it != s.end(); ++it) {
+                    it->id += 1;
+                    sum += it->id;
+                }
                 uint32_t r[2] = {static_cast<uint32_t>(s.size()), sum};
                 vq_emit(ctx, 14, r, 2);
                 break;
